@@ -30,6 +30,8 @@ THEOREMS = [
     "Stab.props.C11E.C11_engine_mutex_owner_partial",
     "Stab.props.C11E.C11_engine_mutex_exclusive_partial",
     "Stab.props.C11E.C11_engine_mutex_crash_cut",
+    "Stab.props.C11E.C11_engine_choice_owner",
+    "Stab.props.C11E.C11_engine_choice_one_winner",
 ]
 TRUSTED_BASE = c04.TRUSTED_BASE
 ASSUMPTIONS = [
